@@ -15,7 +15,8 @@ fn name(i: usize) -> String {
 /// op `topo`: in = {graph: [[name, [deps]]...] (abstract), request: [names]};
 /// exec adds the observed hash iteration orders `types` and `deps`.
 pub fn exec_topo(input: &Value) -> (Value, Value) {
-    let mut g = TypeDependencyGraph::new();
+    // the object is built with `new()` or through its `Default` implementation (both are public ways to get one)
+    let mut g = if input.get("ctor").and_then(|x| x.as_str()) == Some("default") { TypeDependencyGraph::default() } else { TypeDependencyGraph::new() };
     // an earlier life of the same graph object: other dependency sets were recorded and the same request was sorted
     // before the sets were replaced by the ones below (the analyser re-records sets as discovery proceeds)
     if let Some(pre) = input.get("pre_graph").and_then(|x| x.as_array()) {
@@ -144,7 +145,11 @@ fn topo_case(out: &mut Out, n: usize, adj: &[u32], subset: u32, extra_missing: b
         }
     }
     let request: Vec<String> = (0..n).filter(|i| subset >> i & 1 == 1).map(name).collect();
-    out.case("topo", json!({"graph": graph, "request": request}), json!({"n": n, "tag": tag}));
+    if (adj.iter().fold(subset, |a, b| a.wrapping_mul(31).wrapping_add(*b))) % 4 == 1 {
+        out.case("topo", json!({"graph": graph, "request": request, "ctor": "default"}), json!({"n": n, "tag": tag}));
+    } else {
+        out.case("topo", json!({"graph": graph, "request": request}), json!({"n": n, "tag": tag}));
+    }
 }
 
 fn kahn_case(out: &mut Out, n: usize, edges: &[(usize, usize)], tag: &str) {
@@ -330,8 +335,11 @@ pub fn run(out: &mut Out, tier: &str, rng: &mut Rng) {
             let pool = [
                 "Url", "URL", "url", "Page2", "Page10", "Page02", "Snapshot20240928120000", "Snapshot20240928120001", "V9Payload",
                 "V10Payload", "Id", "ID", "apiKey", "ApiKey", "T4294967296", "T4294967295", "T99999999999999999999999", "Page", "Pag",
+                // pairs of names that collide under a well-known 32-bit string hash (FNV-1a, FNV-1, djb2, sdbm, CRC-32, Adler-32)
+                "CouponConfigList", "ThemeHistoryResponse", "PriceEdgeBatchList", "TraceItemNodeLabel", "IndexStockTraceList", "TokenEventLabelStatus",
+                "RuleResponseStockUser", "TraceFrameStockIndex", "StockSlotThemeGrid", "ItemResultTraceUser", "TraceZoneTheme", "StockBatchRule",
             ];
-            let ren = |i: usize| -> String { if i < pool.len() { pool[(k / 5 * 3 + i) % pool.len()].to_string() } else { name(i) } };
+            let ren = |i: usize| -> String { if i < pool.len() { pool[(k / 5 * 2 + i) % pool.len()].to_string() } else { name(i) } };
             let mut graph: Vec<Value> = Vec::new();
             for i in 0..n {
                 let deps: Vec<String> = (0..n).filter(|j| adj[i] >> j & 1 == 1).map(ren).collect();
